@@ -115,10 +115,6 @@ pub fn install_panic_hook() {
         } else {
             "<non-string panic>".to_string()
         };
-        if std::thread::current().name() == Some("main") {
-            // a panic of the main thread ends the run (exit 101 = machinery): say where
-            eprintln!("MACHINERY-ERROR harness main thread panicked at {}: {}", loc, msg);
-        }
         LAST_PANIC.with(|p| *p.borrow_mut() = Some((loc, msg)));
     }));
 }
